@@ -10,7 +10,9 @@ HDIR = os.path.join(VERIF, 'h')
 NPROC = int(os.environ.get('VERIF_JOBS', '16'))
 
 COMMON_DEFS = ['-DZSTD_MULTITHREAD', '-DZSTD_LEGACY_SUPPORT=5', '-DXXH_NAMESPACE=ZSTD_', '-DDEBUGLEVEL=0']
-ASAN = ['-O1', '-g', '-fno-omit-frame-pointer', '-fsanitize=address,undefined', '-fno-sanitize-recover=all']
+# pointer-overflow: zstd deliberately forms (never dereferences) wrapped pointers in the decoder (ZSTD_ALLOW_POINTER_OVERFLOW_ATTR,
+# ZSTD_wrappedPtr*); gcc drops the attribute when those helpers are inlined, so that one check is switched off for the whole build.
+ASAN = ['-O1', '-g', '-fno-omit-frame-pointer', '-fsanitize=address,undefined', '-fno-sanitize=pointer-overflow', '-fno-sanitize-recover=all']
 VARIANTS = {
     'asan':  dict(cc='gcc', cflags=ASAN, ld=['-fsanitize=address,undefined']),
     'tsan':  dict(cc='gcc', cflags=['-O1', '-g', '-fsanitize=thread'], ld=['-fsanitize=thread']),
@@ -104,7 +106,9 @@ def _includes():
 
 
 def variant_dir(variant):
-    return os.path.join(BUILD, variant, tree_hash())
+    v = VARIANTS[variant]
+    fh = hashlib.sha1(' '.join([v['cc']] + v['cflags'] + v.get('defs', COMMON_DEFS)).encode()).hexdigest()[:6]
+    return os.path.join(BUILD, variant, tree_hash() + '-' + fh)
 
 
 def build_lib(variant):
